@@ -87,12 +87,21 @@ class Prog:
     hm = HashMap()
     a = hm.globalVar("I", 5)
     b = hm.globalVar("q", -7)
+    c = hm.globalVar("i", -3)
 
 
 Prog.a.__set_name__(Prog, "a")
 Prog.b.__set_name__(Prog, "b")
+Prog.c.__set_name__(Prog, "c")
 
-PROG = T.Obj(Prog, a=T.Obj(HashGlobalVar, fd=T.Const(9)), b=T.Obj(HashGlobalVar, fd=T.Const(9)))
+PROG = T.Obj(Prog, a=T.Obj(HashGlobalVar, fd=T.Const(9)), b=T.Obj(HashGlobalVar, fd=T.Const(9)),
+             c=T.Obj(HashGlobalVar, fd=T.Const(9)))
+
+
+def set_then_cell(prog, name, v):
+    """Python writes the variable; the result is what the kernel map holds"""
+    setattr(prog, name, v)
+    return prog.g_cells[getattr(Prog, name).count]
 
 
 def set_then_get(prog, name, v):
@@ -132,6 +141,18 @@ def lemmas():
         Contract(load_then_get, name="HashMap.load applies the declared defaults", setup=setup,
                  params=dict(prog=PROG),
                  ensures={"defaults_after_loading": "result == (5, -7)"}, modifies=None, options=inl),
+        # a 64-bit cell: the program copies whole cells between variables of
+        # different widths, so a narrow variable's cell holds the value
+        # extended to 64 bits (sign extended for a signed format)
+        Contract(set_then_cell, name="hash variable c ('i'): the cell holds the value as 64 bits", setup=setup,
+                 params=dict(prog=PROG, name=T.Const("c"), v=T.Range(-2**31, 2**31 - 1)),
+                 ensures={"a_64_bit_cell_holding_the_value": "len(result) == 8 and le_value(result, 0, 'q') == v"},
+                 modifies=None, options=inl,
+                 canaries={"upper_half_zero": "le_value(result, 4, 'i') == 0"}),
+        Contract(set_then_cell, name="hash variable a ('I'): the cell holds the value as 64 bits", setup=setup,
+                 params=dict(prog=PROG, name=T.Const("a"), v=T.Range(0, 2**32 - 1)),
+                 ensures={"a_64_bit_cell_holding_the_value": "len(result) == 8 and le_value(result, 0, 'Q') == v"},
+                 modifies=None, options=inl),
     ]
 
 
